@@ -776,6 +776,28 @@ func execC09(c *vf.Ctx, d *vf.Driver, cs c09Case) {
 		var err error
 		panicked, what := vf.Recover(func() { k, rest, err = jwk.DecodePEM(cs.PEM) })
 		goOut := c08GoOut(panicked, what, err)
+		if goOut.Tag == "err" {
+			// the x509 parsers validate keys themselves and may return a bare crypto/rsa or crypto/ecdh
+			// error: whenever the x509 parse of the block fails, the error class is "x509"
+			if block, _ := pem.Decode(cs.PEM); block != nil {
+				var perr error
+				switch block.Type {
+				case "RSA PRIVATE KEY":
+					_, perr = x509.ParsePKCS1PrivateKey(block.Bytes)
+				case "RSA PUBLIC KEY":
+					_, perr = x509.ParsePKCS1PublicKey(block.Bytes)
+				case "PRIVATE KEY":
+					_, perr = x509.ParsePKCS8PrivateKey(block.Bytes)
+				case "PUBLIC KEY":
+					_, perr = x509.ParsePKIXPublicKey(block.Bytes)
+				case "CERTIFICATE":
+					_, perr = x509.ParseCertificate(block.Bytes)
+				}
+				if perr != nil {
+					goOut.Cls = "x509"
+				}
+			}
+		}
 		mw, merr := d.Call("c08.pem", []vf.Wire{vf.Bytes(cs.PEM)}, StdOracle)
 		mOut, mRes := c08ModelOut(mw, merr)
 		c.Case(string(kb), goOut.Tag != "err" || goOut.Cls != "pem")
